@@ -96,6 +96,12 @@ func (s *NotifyFollowReader) Read(buf []byte) (int, error) {
 		case <-s.eventDelete:
 			if s.ReOpen {
 				s.closeFile()
+				// The file may already have been re-created: its create/write
+				// signal can be consumed before the delete signal, and no
+				// further signal would follow
+				if f, err := os.Open(s.filename); err == nil {
+					s.f = f
+				}
 			} else {
 				s.Close()
 				return 0, io.EOF
